@@ -297,6 +297,35 @@ func compareAutomataImpl(tbl *lalr.Table, rr *refResolution, c *gram.CFG, d *ver
 				if unresolved && len(got) < 2 {
 					return fmt.Sprintf("state I%d on %s: lox settled a conflict (%d candidate actions in the LALR(1) table) that the documented rule does not settle", ls, c.SymName(term), cell.Count()), cells
 				}
+				if unresolved {
+					// nothing may be pruned from a cell that stays a conflict:
+					// the same shift / accept, and the same set of reductions
+					nShift, nAcc := 0, 0
+					reds := map[int]bool{}
+					for _, g := range got {
+						switch g.Kind {
+						case 0:
+							nShift++
+						case 1:
+							reds[m.prod[g.Target]] = true
+						case 2:
+							nAcc++
+						}
+					}
+					wantShift := 0
+					if cell.Shift >= 0 {
+						wantShift = 1
+					}
+					ok := nShift == wantShift && (nAcc == 1) == cell.Accept && len(reds) == len(cell.Reduces)
+					for _, p := range cell.Reduces {
+						if !reds[p] {
+							ok = false
+						}
+					}
+					if !ok {
+						return fmt.Sprintf("state I%d on %s: the cell stays a conflict, but lox keeps %d of its %d candidate actions (an action was dropped silently)", ls, c.SymName(term), len(got), cell.Count()), cells
+					}
+				}
 				// unspecified cells (shifting productions of different levels,
 				// mixed associativity within a level) are not judged
 				continue
